@@ -34,7 +34,8 @@ RULE = (
     "text before extends) injected at every chain position; cyc = ALL extends graphs on "
     "<= 4 templates from every entry; entry = chains entered through include/render from "
     "plain templates, for loops, root text, root blocks and override blocks of another "
-    "chain; samp = seeded random chains of depth <= 4 over 3 names with random nesting.  "
+    "chain; samp = seeded random chains of depth 2..8 (mostly <= 4) over 3 names with "
+    "random nesting, if/for wrappers, block.super once/twice, variable reads.  "
     "distinct = hash(sources, entry, data); non-trivial = the rendered chain has depth >= 2 "
     "and >= 1 block occurrence resolved to a definition from another template (or the "
     "expected outcome is an inheritance error)."
@@ -294,6 +295,10 @@ class Runner:
             if all(self.judge(E2, a) is None for a in obs2.values()):
                 # the same program is right once the partial gets its own tag
                 # namespace: the block stacks were shared with the including chain
+                # (or, when no chain is live around the include, left over from an
+                # earlier chain rendered in the same context)
+                if "from-plain" in shape(prog, entry):
+                    return "stale-block-stacks"
                 return "shared-block-stacks"
         if what == "wrong-output":
             text = A[1]
@@ -833,7 +838,8 @@ SAMP_FORMS = ("plain", "plain", "super", "super", "super2", "req", "var", "super
 
 
 def samp_case(rng: random.Random, max_depth: int = 4, names: tuple = ("a", "b", "c")) -> tuple[dict, str]:
-    d = rng.choice((2, 3, 3, 4, 4, 4)) if max_depth >= 4 else rng.randint(2, max_depth)
+    # mostly depth <= 4 (the property's bound), some larger chains beyond it
+    d = rng.choice((2, 3, 3, 4, 4, 4, 4, 5, 6, 8)) if max_depth >= 4 else rng.randint(2, max_depth)
     prog: dict[str, list] = {}
     for k in range(d):
         root = k == 0
@@ -951,7 +957,7 @@ def shards(tier: str, seed: int) -> list[dict[str, Any]]:  # noqa: ARG001
     specs.append({"kind": "cyc", "i": 0, "n": 1})
     n = 1 if q else 12
     for i in range(n):
-        specs.append({"kind": "samp", "i": i, "n": n, "count": 3000 if q else 50000})
+        specs.append({"kind": "samp", "i": i, "n": n, "count": 3000 if q else 30000})
     if not q:
         for i in range(32):
             specs.append({"kind": "exh4", "i": i, "n": 32})
